@@ -25,7 +25,7 @@ class Obligation:
     def __init__(self, name, fn, *, code=(), bounds='', native='auto', claim_doc='',
                  max_paths=20000, query_timeout_ms=10000, wall_s=150, hard_s=None,
                  concretize_cap=64, tiers=('quick', 'thorough'), stop_on_violation=True, oneshot='auto',
-                 shims=(), outside='', min_paths=1, kind='symbolic', shards=1):
+                 shims=(), outside='', min_paths=1, kind='symbolic', shards=1, backend='z3'):
         self.name = name
         self.fn = fn
         self.code = list(code)
@@ -45,6 +45,7 @@ class Obligation:
         self.min_paths = min_paths
         self.kind = kind
         self.shards = shards
+        self.backend = backend
         self.init_stack = None
         self.split = None
 
@@ -92,7 +93,7 @@ def _explore(ob, prop, known, conn):
         instrument.install()
         ex = core.Explorer(max_paths=ob.max_paths, query_timeout_ms=ob.query_timeout_ms,
                            concretize_cap=ob.concretize_cap, wall_s=ob.wall_s,
-                           stop_on_violation=ob.stop_on_violation, oneshot=ob.oneshot)
+                           stop_on_violation=ob.stop_on_violation, oneshot=ob.oneshot, backend=ob.backend)
         kn = [k for k in known if k.get('obligation') in (None, ob.name, ob.name.split('#')[0])]
         ex.known = kn
         ex.known_hits = {}
